@@ -54,8 +54,10 @@ class RunTimeout(Exception):
 
 
 class time_limit:
-    """per-run wall-clock limit for harness workers (SIGALRM): a run of the implementation that does not return is cut off and the
-    monitors judge what was recorded up to that point"""
+    """per-run limit for harness workers: `seconds` of CPU time of the worker process (ITIMER_PROF: a run is not cut off because the
+    machine is busy with something else), with a wall-clock backstop of 8 x seconds for a run that sleeps.  A run of the implementation
+    that does not return is cut off and the monitors judge what was recorded up to that point; comparisons BETWEEN runs (twins, seeded
+    repetitions) discard a pair in which a run was cut off."""
 
     def __init__(self, seconds):
         self.seconds = int(seconds)
@@ -64,10 +66,12 @@ class time_limit:
         import signal
 
         def handler(signum, frame):
-            raise RunTimeout(f"run did not finish within {self.seconds} s")
+            raise RunTimeout(f"run did not finish within {self.seconds} s of CPU time")
         try:
             self.old = signal.signal(signal.SIGALRM, handler)
-            signal.alarm(self.seconds)
+            self.oldp = signal.signal(signal.SIGPROF, handler)
+            signal.setitimer(signal.ITIMER_PROF, self.seconds)
+            signal.alarm(8 * self.seconds)
         except ValueError:   # not in the main thread
             self.old = None
         return self
@@ -75,8 +79,10 @@ class time_limit:
     def __exit__(self, *a):
         import signal
         if self.old is not None:
+            signal.setitimer(signal.ITIMER_PROF, 0)
             signal.alarm(0)
             signal.signal(signal.SIGALRM, self.old)
+            signal.signal(signal.SIGPROF, self.oldp)
         return False
 
 
